@@ -204,13 +204,13 @@ FaultUniverse ==
          {[kind |-> "sample_len", i |-> i, j |-> j, d |-> d] : i \in 1..2, j \in 1..2, d \in {1, -1}},
          {[kind |-> "moddata_len", i |-> i, j |-> j, k |-> k, which |-> w, d |-> d] :
               i \in 1..2, j \in 1..2, k \in 1..MaxPlace, w \in {"d1", "d2", "both"}, d \in {1, -1}},
-         {[kind |-> "binwise_shared", i |-> i, j |-> 1, n |-> n, t |-> t] : i \in 1..2, n \in {6} \cup 10..13 \cup 21..22, t \in {SHAPEFACTOR, SHAPESYS, STATERROR}},
-         {[kind |-> "conflict_type", i |-> i, j |-> 1, n |-> n, t |-> t] : i \in 1..2, n \in 1..7 \cup 10..13 \cup 21..22,
+         {[kind |-> "binwise_shared", i |-> i, j |-> 1, n |-> n, t |-> t] : i \in 1..2, n \in {6} \cup 10..14 \cup 21..22, t \in {SHAPEFACTOR, SHAPESYS, STATERROR}},
+         {[kind |-> "conflict_type", i |-> i, j |-> 1, n |-> n, t |-> t] : i \in 1..2, n \in 1..7 \cup 10..14 \cup 21..22,
               t \in {NORMFACTOR, NORMSYS, SHAPESYS, STATERROR, SHAPEFACTOR}},
-         {[kind |-> "override_len", n |-> n, field |-> fl, len |-> l] : n \in 1..7 \cup 10..13 \cup 21..22, fl \in {"inits", "bounds", "auxdata"}, l \in 2..3},
+         {[kind |-> "override_len", n |-> n, field |-> fl, len |-> l] : n \in 1..7 \cup 10..14 \cup 21..22, fl \in {"inits", "bounds", "auxdata"}, l \in 2..3},
          {[kind |-> "undefined_poi"]}, {[kind |-> "lumi_no_settings"]}}
 
-VNext == \/ \E c \in 1..MaxChan, s \in 1..2, m \in MIds : VAddMod(c, s, m)
+VNext == \/ \E c \in 1..MaxChan, s \in 1..MaxSamp, m \in MIds : VAddMod(c, s, m)
          \/ \E f \in FaultUniverse : Inject(f)
          \/ \E f \in FaultUniverse : Inject2(f)
          \/ Clean
